@@ -34,7 +34,7 @@ def _(c):
     c.requires("current_height >= 0")
 
 
-@PW.contract("skepticoin.consensus.construct_pow_evidence_after_scrypt", props=["C05", "C06", "C12"])
+@PW.contract("skepticoin.consensus.construct_pow_evidence_after_scrypt", props=["C05", "C06", "C12", "C18"])
 def _(c):
     c.summary("pow_evidence_after")
     c.requires("current_height >= 0", "len(summary_hash) == 32")
@@ -42,4 +42,7 @@ def _(c):
         "result.summary_hash == summary_hash",
         # the evidence commits to the complete transaction list: it is part of the hashed input
         "result.block_hash == blake2(summary_hash + result.chain_sample + serialize_list(transactions))",
-        "implies(current_height == 0, result.chain_sample == bytes(32))" if False else "True")
+        # the chain sample is drawn from the ancestry of the block's OWN parent (not from whatever the node's head is)
+        "implies(current_height > 0, result.chain_sample == select_n_k_length_slices_from_chain(summary_hash, current_height, "
+        "lambda hh: coinstate.block_by_height_by_hash[summary.previous_block_hash][hh], CHAIN_SAMPLE_COUNT, CHAIN_SAMPLE_SIZE))",
+        "implies(current_height == 0, result.chain_sample == bytes(CHAIN_SAMPLE_TOTAL_SIZE))")
